@@ -174,12 +174,83 @@ def per_path(ctx, po, sh):
     ctx.cov['sub_checks']['impls_shape_checked'] = ctx.cov['sub_checks'].get('impls_shape_checked', 0) + len(nat['impls'])
 
 
+# ---- whole derive: counterpart / error type forms go through the crate's own TypePath::from and the quote_*_trait skeletons
+W_TYS = ['X', 'm::X', 'X<T>', 'm::X<T>', "m::X<'a, T>", '::m::X<T>', 'X<Y<Z>>', 'm::n::X<(i32, T)>', 'X<[u8; 4]>', '(i32, i64)', 'X::<T>']
+W_ERRS = ['Er', 'm::Er', 'Er<T>', 'm::Er<T, U>']
+W_ITEMS = ['struct S<T> { a: T }', 'struct S<T>(T);', 'enum E<T> { A(T), B }', 'struct S { a: i32 }']
+
+
+def type_forms_shard(ctx, sh):
+    import z3, synmodel, c13
+    from engine import SymStr
+    from build import TRAIT_NAMES
+    e = ctx.engine()
+    synmodel.install(e)
+    item = W_ITEMS[sh['item']]
+    combos = [(t, er) for t in range(len(W_TYS)) for er in range(len(W_ERRS))]
+
+    def run(eng):
+        fv = z3.Int('fall')
+        eng.assume(z3.And(fv >= 0, fv <= 1))
+        f = eng.decide([(0, fv == 0), (1, fv == 1)])
+        uni = [n for n in TRAIT_NAMES if n.startswith('try') == bool(f)]
+        atom = z3.Int('nm')
+        eng.assume(z3.And(atom >= 0, atom < len(uni)))
+        cv = z3.Int('combo')
+        eng.assume(z3.And(cv >= 0, cv < len(combos)))
+        k = eng.decide([(i, cv == i) for i in range(len(combos)) if f or combos[i][1] == 0])
+        t, er = combos[k]
+        text = '#[SYM(%s%s)] %s' % (W_TYS[t], (', ' + W_ERRS[er]) if f else '', item)
+        eng.aux['w'] = (text, uni)
+        return c13.outcome(eng, text, {'SYM': SymStr(atom, uni)})
+    res = e.explore(run)
+    ctx.absorb(e, res)
+    wit = []
+    for r in res:
+        if r.kind != 'ok':
+            ctx.inconclusive.append('engine panic in C17 (type forms): %s' % r.value); continue
+        text, uni = r.aux['w']
+        mdl = ctx.model_of(r.pc)
+        wit.append((r, text.replace('SYM', uni[mdl.eval(z3.Int('nm'), model_completion=True).as_long()])))
+    nat = ctx.replay.run_many([w[1] for w in wit])
+    for (r, src), n in zip(wit, nat):
+        out = r.value
+        if (out[0] == 'ok' and n['status'] == 'ok' and out[1] == expander.flat_text(n['out'])) or (out[0] != 'ok' and n['status'] == out[0]):
+            ctx.cov['traces_validated_against_impl'] += 1
+        else:
+            ctx.inconclusive.append('ENCODING-MISMATCH (C17 type forms): %s :: engine %s native %s' % (src, out[0], n['status']))
+            continue
+        if n['status'] != 'ok':
+            continue
+        ctx.cov['queries']['unsat'] += 1
+        if not n['parse'] or not n['parse'].startswith('ok'):
+            if item.startswith('enum') and 'into_existing' in src.split('(')[0]:
+                # same role as the sweep's class: an enum under an into_existing instruction (open finding)
+                ctx.violation('output-does-not-parse', 'enum+into_existing', 'accepted input expands to tokens that are not a sequence of items: %s' % (n['parse'],), {'input': src, 'output': n['out'][:1500], 'parse': n['parse']})
+                continue
+            if item.startswith('enum') and '((' in src.split(' enum')[0]:
+                ctx.violation('type-forms', 'enum+tuple-counterpart', 'accepted input expands to tokens that are not a sequence of items: %s' % (n['parse'],), {'input': src, 'output': n['out'][:1500], 'parse': n['parse']})
+                continue
+            ctx.violation('type-forms', 'output-does-not-parse', 'accepted input expands to tokens that are not a sequence of items: %s' % (n['parse'],), {'input': src, 'output': n['out'][:1500], 'parse': n['parse']})
+            continue
+        for im in n['impls']:
+            errs = shape_errors(im)
+            if errs:
+                ctx.violation('type-forms', 'impl-shape/' + errs[0].split(' ')[0], '; '.join(errs), {'input': src, 'impl': im['text'][:1200]})
+        ctx.cov['sub_checks']['impls_shape_checked'] = ctx.cov['sub_checks'].get('impls_shape_checked', 0) + len(n['impls'])
+    if wit:
+        ctx.sample({'part': 'type forms (whole derive)', 'input': wit[len(wit) // 2][1]})
+    ctx.cov['sub_checks']['type_form_paths'] = ctx.cov['sub_checks'].get('type_form_paths', 0) + len(wit)
+
+
 def body(ctx):
     ctx.cov['outside_claim'] = ['form-inconsistent configurations: index rename / indexed ghosts against a struct-form counterpart, named ghosts or ..update against a tuple-form counterpart, payload fields against a unit-form variant (Rust syntax cannot express what the user asked for)',
                                 'well-formedness of user-supplied expressions/types/patterns (placeholders are well-formed by construction)',
-                                'generic parameter lists (C11)', 'shapes beyond the sweep families']
+                                'generic parameter lists (C11)', 'shapes beyond the sweep families', 'counterpart paths with generic arguments on a non-final segment (`m::X<T>::Y`)']
     ctx.assumptions = ['syn 1.x `parse2::<syn::File>` is the judge of syntactic validity', 'library models; per-path native equality of predicted and real output']
     expander.sweep(ctx, ['flat', 'params', 'ghosts', 'child', 'parent', 'enum'], per_path)
+    ctx.cov['bounds']['type_forms'] = {'counterpart_types': W_TYS, 'error_types': W_ERRS, 'items': W_ITEMS, 'instruction_name': 'symbolic over the 12 infallible / 12 fallible names'}
+    ctx.run_shards(type_forms_shard, [{'item': i} for i in range(len(W_ITEMS))])
 
 
 if __name__ == '__main__':
